@@ -118,10 +118,10 @@ Example C02_history_example :
 Proof. split; reflexivity. Qed.
 
 (* SOURCE TIE (translator translate/srcfuns.py): the 3x3 block that ENUConverter::setAnchor writes with its three
-   comma initialisers, regenerated from the clang AST of the current source on every run (gen/SrcFuns.v), is the
+   comma initialisers, regenerated from the clang AST of the current source on every run (gen/SrcFunsC02.v), is the
    frame matrix all theorems above are about.  Hence the proper-rotation statement holds of the source's own term. *)
-From Romea Require Import SrcTie.
-From Romea.gen Require Import SrcFuns.
+From Romea Require Import SrcTie SrcTieC02.
+From Romea.gen Require Import SrcFunsC02.
 Theorem C02_source_tie_frame : forall lat lon,
   src_enuFrame ROps lat lon =
   (let m := frame_rotation ROps lat lon in
